@@ -20,6 +20,15 @@ HEADER = ('From PV Require Import Base.Prelude Wire.Lex Wire.Strings Wire.String
 PTYPE = '(bool * option N * bool)'
 
 
+def B(b) -> str:
+    """bytes -> Gallina term (Wire/Lex.v Bx): much cheaper for coqc to read
+    than a list literal"""
+    b = bytes(b)
+    if not b:
+        return '(@nil N)'
+    return f'(Bx {len(b)} 0x{b.hex()})'
+
+
 # ------------------------------------------------------------------ impl side
 def impl_parse(cls, buf: bytes, conts=(), append=False, maxapp=None, allow=True):
     from pymap.parsing import Params
@@ -48,7 +57,7 @@ def enc_xres(res, enc_val) -> str:
         return 'XFail'
     if res[0] == 'need':
         return f'(XNeed {T.N(res[1])})'
-    return f'(XOk {enc_val(res[1])} {T.bytes_(res[2])} {T.lst(T.bytes_(c) for c in res[3])})'
+    return f'(XOk {enc_val(res[1])} {B(res[2])} {T.lst(B(c) for c in res[3])})'
 
 
 # ----------------------------------------------------------------- generators
@@ -231,13 +240,13 @@ def section(ctx) -> None:
     ca, cn, cm = [], [], []
     for buf in stream:
         ra = impl_parse(Atom, buf)
-        ca.append(T.pair(T.bytes_(buf), 'None' if ra[0] != 'ok' else
-                         T.option(T.pair(T.bytes_(ra[1].value), T.bytes_(ra[2])))))
+        ca.append(T.pair(B(buf), 'None' if ra[0] != 'ok' else
+                         T.option(T.pair(B(ra[1].value), B(ra[2])))))
         rn = impl_parse(Nil, buf)
-        cn.append(T.pair(T.bytes_(buf), 'None' if rn[0] != 'ok' else T.option(T.bytes_(rn[2]))))
+        cn.append(T.pair(B(buf), 'None' if rn[0] != 'ok' else T.option(B(rn[2]))))
         rm = impl_parse(Number, buf)
-        cm.append(T.pair(T.bytes_(buf), 'None' if rm[0] != 'ok' else
-                         T.option(T.pair(T.N(rm[1].value), T.bytes_(rm[2])))))
+        cm.append(T.pair(B(buf), 'None' if rm[0] != 'ok' else
+                         T.option(T.pair(T.N(rm[1].value), B(rm[2])))))
         ctx.count(('atom', buf), nontrivial=ra[0] == 'ok')
     for nm, typ, cs, chk in (('atom', 'bytes * option (bytes * bytes)', ca, 'chk_atom'),
                              ('nil', 'bytes * option bytes', cn, 'chk_nil'),
@@ -259,11 +268,11 @@ def section(ctx) -> None:
         r = impl_parse(QuotedString, buf)
         ctx.count(('quoted', buf), nontrivial=r[0] == 'ok')
         if r[0] == 'ok':
-            cq.append(T.pair(T.bytes_(buf), T.option(T.pair(
-                T.bytes_(r[1].value), T.bytes_(bytes(r[1])), T.bytes_(r[2])))))
+            cq.append(T.pair(B(buf), T.option(T.pair(
+                B(r[1].value), B(bytes(r[1])), B(r[2])))))
             monitor_reserialise(ctx, QuotedString, buf, r, ())
         else:
-            cq.append(T.pair(T.bytes_(buf), 'None'))
+            cq.append(T.pair(B(buf), 'None'))
     ctx.sample({'quoted_input': stream[-1].decode('latin-1')})
     bad = ctx.run_cases('quoted_parse', HEADER, 'bytes * option (bytes * bytes * bytes)', cq,
                         'chk_quoted', **SH)
@@ -306,13 +315,13 @@ def section(ctx) -> None:
             continue
         seen.add(key)
         keep.append(key)
-        pre = T.pair(enc_params(*ps), T.lst(T.bytes_(c) for c in conts), T.bytes_(buf))
+        pre = T.pair(enc_params(*ps), T.lst(B(c) for c in conts), B(buf))
         rl = impl_parse(LiteralString, buf, conts, *ps)
-        cl.append(T.pair(pre, enc_xres(rl, lambda o: T.pair(T.bytes_(o.value), T.boolean(o.binary)))))
+        cl.append(T.pair(pre, enc_xres(rl, lambda o: T.pair(B(o.value), T.boolean(o.binary)))))
         rs = impl_parse(String, buf, conts, *ps)
-        cs_.append(T.pair(pre, enc_xres(rs, lambda o: T.pair(T.bytes_(o.value), T.bytes_(bytes(o))))))
+        cs_.append(T.pair(pre, enc_xres(rs, lambda o: T.pair(B(o.value), B(bytes(o))))))
         ra = impl_parse(AString, buf, conts, *ps)
-        cas.append(T.pair(pre, enc_xres(ra, lambda o: T.pair(T.bytes_(o.value), T.bytes_(bytes(o))))))
+        cas.append(T.pair(pre, enc_xres(ra, lambda o: T.pair(B(o.value), B(bytes(o))))))
         ctx.count(('astring', key), nontrivial=ra[0] != 'fail')
         if len(buf) < 200:
             if rs[0] == 'ok' and ps[2]:
@@ -336,11 +345,11 @@ def section(ctx) -> None:
         + [gen_value(rng) for _ in range(ctx.scale(300, 5000))]))
     cp, cpl = [], []
     for v in vals:
-        cp.append(T.pair(T.bytes_(v), T.bytes_(bytes(QuotedString(v))), T.bytes_(bytes(AString(v)))))
+        cp.append(T.pair(B(v), B(bytes(QuotedString(v))), B(bytes(AString(v)))))
         for binary in (False, True):
             built = String.build(v, binary)
-            cpl.append(T.pair(T.boolean(binary), T.bytes_(v), T.bytes_(bytes(LiteralString(v, binary))),
-                              T.boolean(isinstance(built, QuotedString)), T.bytes_(bytes(built))))
+            cpl.append(T.pair(T.boolean(binary), B(v), B(bytes(LiteralString(v, binary))),
+                              T.boolean(isinstance(built, QuotedString)), B(bytes(built))))
         ctx.count(('print', v))
     for i in ctx.run_cases('string_print', HEADER, 'bytes * bytes * bytes', cp, 'chk_print_q', **SH)[:5]:
         ctx.disagreement('string_print', {'value': vals[i].hex()})
@@ -353,3 +362,22 @@ def section(ctx) -> None:
     for v in vals[:ctx.scale(400, 4000)]:
         n += monitor_spelling(ctx, v)
     ctx.extra['strings'] = {'spelling_monitor_parses': n}
+
+
+def replay(ctx, obj) -> bool:
+    from pymap.parsing.primitives import QuotedString, String
+    from pymap.parsing.specials import AString
+    clause = obj.get('clause')
+    if clause == 'string_reserialise':
+        cls = {'QuotedString': QuotedString, 'String': String, 'AString': AString}[obj['class']]
+        buf = bytes.fromhex(obj['input'])
+        res = impl_parse(cls, buf)
+        print('input', buf, '->', res[:1], getattr(res[1], 'value', None) if len(res) > 1 else None)
+        if res[0] == 'ok':
+            print('bytes(parsed) =', bytes(res[1]))
+            monitor_reserialise(ctx, cls, buf, res, ())
+        return True
+    if clause == 'astring_spelling':
+        monitor_spelling(ctx, bytes.fromhex(obj['value']))
+        return True
+    return False
